@@ -528,6 +528,18 @@ class Exec:
             raise Unsupported('binop on enum')
         ii = int_info(ty)
         sg = ii[1] if ii else False
+        if op in ('Lt', 'Le', 'Gt', 'Ge', 'Eq', 'Ne') and is_bv(a) and is_bv(b):
+            # lengths of solver strings arrive as int2bv(len): compare the integers themselves (they are in [0, 2^63)), which the
+            # string solver can handle, instead of their bit-vector images, which it cannot
+            def as_int(x):
+                if z3.is_app(x) and x.decl().kind() == z3.Z3_OP_INT2BV: return x.arg(0)
+                xs = simp(x)
+                if z3.is_bv_value(xs): return z3.IntVal(xs.as_long())
+                return None
+            if (z3.is_app(a) and a.decl().kind() == z3.Z3_OP_INT2BV) or (z3.is_app(b) and b.decl().kind() == z3.Z3_OP_INT2BV):
+                ia, ib = as_int(a), as_int(b)
+                if ia is not None and ib is not None:
+                    return {'Lt': ia < ib, 'Le': ia <= ib, 'Gt': ia > ib, 'Ge': ia >= ib, 'Eq': ia == ib, 'Ne': ia != ib}[op]
         if is_bv(a) and is_bv(b) and a.size() != b.size():
             if op in ('Shl', 'Shr', 'ShlUnchecked', 'ShrUnchecked'):
                 b = ZeroExt(a.size() - b.size(), b) if b.size() < a.size() else Extract(a.size() - 1, 0, b)
